@@ -42,6 +42,13 @@ PrecedenceOK(cli, tc, doc, fmt, eff) ==
     /\ \A k \in Keys : eff.scalar[k] = Highest(<<cli.scalar[k], tc.scalar[k], doc.scalar[k], fmt.scalar[k]>>)
     /\ \A e \in EnvVars : eff.env[e] = Highest(<<cli.env[e], tc.env[e], doc.env[e], fmt.env[e]>>)
 
+\* (P) the value in effect for a test case is a function of ITS OWN four layers: what a neighbouring test case of the
+\* same document has configured - and what the shell state it leaves behind holds for that variable - does not change it
+\* ("environment: a set of environment variable names and values that will be explicitly set for the test").  Observed end
+\* to end only (the test case under test is the second of its document; the first one runs with the document defaults,
+\* or with another inline value for every variable in effect): "skip" = not realised, "ok", "fail".
+NeighbourIndependent(observed) == observed \in {"skip", "ok"}
+
 \* lists: command line prepends come first, command line appends last
 MergeLists(hi, lo) == [prepend |-> hi.prepend \o lo.prepend, append |-> lo.append \o hi.append]
 
